@@ -14,6 +14,7 @@ import NV.C06.Invariant
 import NV.C06.Counters
 import NV.C06.Strings
 import NV.C06.Spec
+import NV.C06.Oracle
 
 namespace NV.C06
 
@@ -75,6 +76,36 @@ theorem incRef_refed_matches (k : Kind) (hk : k.isStr = false) (r : Nat) :
   unfold incRef NV.Gen.C06.refedInc
   rw [if_neg (by simp [hk])]
 
+/-! ### programs: `program_t.ref` is a cell of the heap model (kind `.prog`)
+
+The model counts program references at the width `W` of `refed_t.ref`; `prog_widths_agree` is the obligation that
+`program_t.ref` (and `func_ref`) really have that width (they had 16 bits until repo commit 0280873: see
+`Witness.prog_wrap_uaf`), `incRef_prog_matches` / `decRef_prog_matches` tie the model's updates to the regenerated
+bodies of reference_prog / free_prog (with `func_ref = 0`: the harness program has no function pointers compiled in). -/
+
+theorem prog_widths_agree : NV.Gen.C06.progRefBits = W ∧ NV.Gen.C06.progFuncRefBits = W := by decide
+
+theorem incRef_prog_matches (r : Nat) : incRef .prog r 1 = NV.Gen.C06.progInc r := by
+  unfold incRef NV.Gen.C06.progInc
+  rw [if_neg (by simp [Kind.isStr])]
+  rw [prog_widths_agree.1]
+
+theorem decRef_prog_matches (r : Nat) : decRef .prog r = NV.Gen.C06.progDec r 0 := by
+  unfold decRef NV.Gen.C06.progDec
+  rw [if_neg (by simp [Kind.isStr])]
+  rw [prog_widths_agree.1]
+  show ((r + 2 ^ W - 1) % 2 ^ W, (r + 2 ^ W - 1) % 2 ^ W == 0) = _
+  generalize (r + 2 ^ W - 1) % 2 ^ W = x
+  cases x with
+  | zero => simp
+  | succ n => simp
+
+/-- the byte count the model keeps per array (total_array_size) is the regenerated formula of allocate_array /
+    allocate_empty_array / dealloc_array / free_empty_array -/
+theorem arrBytes_matches (n : Nat) : arrBytes n = NV.Gen.C06.arrBytesOf n := by
+  unfold arrBytes NV.Gen.C06.arrBytesOf NV.Gen.C06.sizeofArrayT NV.Gen.C06.sizeofSvalue
+  omega
+
 /-- the hypothesis of the task (`holders ≤ 2^W − 1` for every value) implies `Fits` -/
 theorem Fits_of_le (s : St) (h : ∀ c, H s c ≤ 2 ^ W - 1) : Fits s := by
   intro c
@@ -98,7 +129,7 @@ theorem ref_eq_holders (ops : List Op) (s : St) (h : run St.init ops = .ok s) (f
   rw [inv.1, Nat.mod_eq_of_lt hlt]
 
 example : ∃ s cell, run St.init [.newarr 0 2, .assign 1 0, .newmap 2, .mset 2 0 0, .push 0] = .ok s ∧
-    s.heap[0]? = some cell ∧ cell.ref = 5 ∧ H s 0 = 5 := by
+    s.heap[2]? = some cell ∧ cell.ref = 5 ∧ H s 2 = 5 := by
   refine ⟨_, _, rfl, rfl, ?_, ?_⟩ <;> decide
 
 /-- **no_free_while_held.**  Under the same hypothesis a deallocated cell has no holder left: no variable, stack
@@ -111,7 +142,76 @@ theorem no_free_while_held (ops : List Op) (s : St) (h : run St.init ops = .ok s
   exact inv
 
 example : ∃ s cell, run St.init [.newarr 0 2, .newarr 1 1, .aset 0 0 1, .free 1, .free 0] = .ok s ∧
-    s.heap[1]? = some cell ∧ cell.live = false := ⟨_, _, rfl, rfl, rfl⟩
+    s.heap[3]? = some cell ∧ cell.live = false := ⟨_, _, rfl, rfl, rfl⟩
+
+/-- a pointer stored in a container counts as a holder -/
+theorem heapCnt_pos_of_mem (p : Nat) (h : List Cell) (d : Nat) (dc : Cell) (hd : h[d]? = some dc)
+    (hm : Val.ptr p ∈ dc.items) : 0 < heapCnt p h := by
+  induction h generalizing d with
+  | nil => simp at hd
+  | cons a t ih =>
+    rw [heapCnt_cons]
+    cases d with
+    | zero =>
+      simp at hd
+      subst hd
+      have : 0 < cnt p a.items := by unfold cnt; exact List.count_pos_iff.mpr hm
+      omega
+    | succ j =>
+      have := ih j (by simpa using hd)
+      omega
+
+/-- **no_dangling_reference.**  After any history in which the holders always fit the counters, every pointer that
+    is stored anywhere — a variable, a stack slot, a handle, the object list, a pending call_out, a sentence, a value
+    in transit, an element of a container, a variable of an object, the program field of an object structure, the
+    inherit table of a program — refers to a cell that is allocated and has not been deallocated. -/
+theorem no_dangling_reference (ops : List Op) (s : St) (h : run St.init ops = .ok s) (fit : FitsRun St.init ops)
+    (p : Nat) (held : 0 < H s p) : ∃ cell, s.heap[p]? = some cell ∧ cell.live = true := by
+  have inv := run_ok ops St.init s h Inv_init fit p
+  unfold CellOK at inv
+  cases hc : s.heap[p]? with
+  | none =>
+    have : metaOf s p = none := by unfold metaOf; rw [hc]; rfl
+    rw [this] at inv
+    simp only at inv
+    omega
+  | some cell =>
+    rw [metaOf_some s p cell hc] at inv
+    cases hl : cell.live with
+    | true => exact ⟨cell, rfl, hl⟩
+    | false =>
+      rw [hl] at inv
+      simp only at inv
+      omega
+
+/-- **program_alive_while_referenced.**  Under the same hypothesis, whatever a live cell stores a pointer to is live:
+    in particular the program of every object structure that has not been deallocated (`ob->prog`, item `nVars` of an
+    object cell; the object may be destructed and waiting for its last holder) and every program in the inherit table
+    of a live program are allocated — free_prog never deallocates a program some object or program still uses. -/
+theorem program_alive_while_referenced (ops : List Op) (s : St) (h : run St.init ops = .ok s)
+    (fit : FitsRun St.init ops) (d : Nat) (dc : Cell) (hd : s.heap[d]? = some dc) (p : Nat)
+    (hm : Val.ptr p ∈ dc.items) : ∃ pc, s.heap[p]? = some pc ∧ pc.live = true := by
+  apply no_dangling_reference ops s h fit p
+  have := heapCnt_pos_of_mem p s.heap d dc hd hm
+  unfold H
+  omega
+
+/-- **prog_ref_eq_holders.**  `program_t.ref` of a live program equals the number of its holders (blueprint object,
+    object structures of clones, inheriting programs) modulo 2^W, and exactly when they fit. -/
+theorem prog_ref_eq_holders (ops : List Op) (s : St) (h : run St.init ops = .ok s) (fit : FitsRun St.init ops)
+    (c : Nat) (cell : Cell) (hc : s.heap[c]? = some cell) (hl : cell.live = true) (hk : cell.kind = .prog) :
+    cell.ref = H s c % 2 ^ W ∧ (H s c < 2 ^ W → cell.ref = H s c ∧ 0 < H s c) :=
+  ref_eq_holders ops s h fit c cell hc hl (by rw [hk]; rfl)
+
+/-- non-vacuity: two named clones and three anonymous ones; the program of /c06/uobj has 6 holders, the inherited
+    program 2; after the blueprint is unloaded and all clones are gone both programs are deallocated -/
+example : ∃ s pc bc, run St.init [.newobj 0, .newobj 1, .clones 3] = .ok s ∧
+    s.heap[cProg]? = some pc ∧ pc.ref = 6 ∧ H s cProg = 6 ∧ s.heap[cBase]? = some bc ∧ bc.ref = 2 ∧ H s cBase = 2 := by
+  refine ⟨_, _, _, rfl, rfl, ?_, ?_, rfl, ?_, ?_⟩ <;> decide
+
+example : ∃ s pc bc, run St.init [.newobj 0, .clones 2, .unload 0, .unload 1, .unclone 2, .dest 0, .cleanup, .drop 0] = .ok s ∧
+    s.heap[cProg]? = some pc ∧ pc.live = false ∧ s.heap[cBase]? = some bc ∧ bc.live = false ∧ H s cProg = 0 ∧ H s cBase = 0 := by
+  refine ⟨_, _, _, rfl, rfl, ?_, rfl, ?_, ?_, ?_⟩ <;> decide
 
 /-- the same for all sequences of primitive calls (micro-instructions), from any state satisfying the invariant -/
 theorem primitives_preserve_invariant (prog : List Mi) (s s' : St) (h : runMi s prog = .ok s') (inv : Inv s)
@@ -175,7 +275,7 @@ theorem string_cells_never_freed_while_held (ops : List Op) (s : St) (h : run St
     exact inv
 
 example : ∃ s cell, run St.init [.newstr 0 "a", .newstr 1 "a", .fill 2 3 0, .free 0, .free 1, .free 2] = .ok s ∧
-    s.heap[0]? = some cell ∧ cell.kind = .str ∧ cell.live = false := ⟨_, _, rfl, rfl, rfl, rfl⟩
+    s.heap[2]? = some cell ∧ cell.kind = .str ∧ cell.live = false := ⟨_, _, rfl, rfl, rfl, rfl⟩
 
 /-! ### a string block is modified in place only by its single holder
 
@@ -273,7 +373,7 @@ theorem add_never_inplace (k : Kind) (hk : k.isStr = true) (r : Nat) :
 /-- non-vacuity: the single holder of a run-time string appends in place; with a second holder a copy is made and the
     other holder keeps its text -/
 example : inPlaceTarget (match run St.init [.newmstr 0 "ab"] with | .ok s => s | .error _ => St.init) (.sappend 0 "7")
-    = some 0 := by decide
+    = some 2 := by decide
 example : ∃ s c0 c1, run St.init [.newmstr 0 "ab", .assign 1 0, .schar 1 0 "z"] = .ok s ∧
     strSlot s 0 = some c0 ∧ c0.2.text = "ab" ∧ strSlot s 1 = some c1 ∧ c1.2.text = "zb" :=
   ⟨_, _, _, rfl, rfl, by decide, rfl, by decide⟩
@@ -297,9 +397,9 @@ theorem string_saturates (n : Nat) (hn : 2 ^ SW ≤ 1 + n) : incRef .str 1 n = 0
 theorem counters_exact (ops : List Op) (s : St) (h : run St.init ops = .ok s) :
     s.stats.numArrays = (lc .arr s.heap : Int) ∧ s.stats.numMappings = (lc .map s.heap : Int) ∧
     s.stats.objects = (lc .obj s.heap : Int) :=
-  ⟨run_count cArrays ops St.init s h (CountOK_init cArrays rfl),
-   run_count cMappings ops St.init s h (CountOK_init cMappings rfl),
-   run_count cObjects ops St.init s h (CountOK_init cObjects rfl)⟩
+  ⟨run_count cArrays ops St.init s h (CountOK_init cArrays rfl (by decide)),
+   run_count cMappings ops St.init s h (CountOK_init cMappings rfl (by decide)),
+   run_count cObjects ops St.init s h (CountOK_init cObjects rfl (by decide))⟩
 
 theorem lc_zero_of_all (k0 : Kind) (h : List Cell) (hall : ∀ cell ∈ h, cell.live = true → cell.kind ≠ k0) : lc k0 h = 0 := by
   unfold lc
@@ -349,14 +449,169 @@ theorem balanced_history_returns_to_baseline (ops : List Op) (s : St) (h : run S
   · rw [b, nolive .map rfl]; rfl
   · rw [c, nolive .obj rfl]; rfl
 
+/-- **unreferenced_is_deallocated** (per value): after any history in which the holders always fit, a value other than
+    a string that nothing refers to any more has been deallocated — whatever else is still alive.  (Strings: only a
+    saturated, immortal one can survive without holders, `string_cells_never_freed_while_held`.) -/
+theorem unreferenced_is_deallocated (ops : List Op) (s : St) (h : run St.init ops = .ok s) (fit : FitsRun St.init ops)
+    (c : Nat) (cell : Cell) (hc : s.heap[c]? = some cell) (hk : cell.kind.isStr = false) (h0 : H s c = 0) :
+    cell.live = false := by
+  have i := run_ok ops St.init s h Inv_init fit c
+  unfold CellOK at i
+  rw [metaOf_some s c cell hc, h0] at i
+  cases hl : cell.live with
+  | false => rfl
+  | true =>
+    rw [hl] at i
+    simp only [RefOK, hk] at i
+    simp only [Bool.false_eq_true, if_false] at i
+    have := i.2 two_pow_W_pos
+    omega
+
+/-! ### the per-value clauses of the specification oracle hold on the model's own states
+
+Clause-level part of the top statement `judge (model trace) = []`: the oracle compares every printed counter with
+`holders` (its own count over roots, values in transit and the items of existing containers).  On every state the model
+reaches these comparisons succeed: `DeadEmpty` (run_DE) gives `holders = H`, the counting invariant does the rest.
+What is still missing for the full statement is the simulation between the oracle's graph machine (`gstep` + `collect`)
+and the counting machine (`mstep`), i.e. that both are in the same state after every operation. -/
+
+/-- clause `ref-mismatch`: the counter the model prints for a live non-string value is the number of holders the
+    oracle counts (holders fitting the counter) -/
+theorem oracle_ref_clause (ops : List Op) (s : St) (h : run St.init ops = .ok s) (fit : FitsRun St.init ops)
+    (c : Nat) (cell : Cell) (hc : s.heap[c]? = some cell) (hl : cell.live = true) (hk : cell.kind.isStr = false)
+    (hlt : H s c < 2 ^ W) : cell.ref = holders s c := by
+  rw [holders_eq_H s (run_DE ops St.init s h DE_init) c]
+  exact ((ref_eq_holders ops s h fit c cell hc hl hk).2 hlt).1
+
+/-- clause `freed-while-held`: a value the model prints as freed (`x`) has no holder in the oracle's count -/
+theorem oracle_freed_clause (ops : List Op) (s : St) (h : run St.init ops = .ok s) (fit : FitsRun St.init ops)
+    (c : Nat) (cell : Cell) (hc : s.heap[c]? = some cell) (hl : cell.live = false) : holders s c = 0 := by
+  rw [holders_eq_H s (run_DE ops St.init s h DE_init) c]
+  exact no_free_while_held ops s h fit c cell hc hl
+
+/-- clause `leak cell=`: a non-string value without holders in the oracle's count is printed as freed -/
+theorem oracle_leak_clause (ops : List Op) (s : St) (h : run St.init ops = .ok s) (fit : FitsRun St.init ops)
+    (c : Nat) (cell : Cell) (hc : s.heap[c]? = some cell) (hk : cell.kind.isStr = false) (h0 : holders s c = 0) :
+    cell.live = false := by
+  rw [holders_eq_H s (run_DE ops St.init s h DE_init) c] at h0
+  exact unreferenced_is_deallocated ops s h fit c cell hc hk h0
+
+/-- the three clauses for strings, without any hypothesis on the number of holders: freed ⇒ no holder; live ⇒ the
+    printed counter is 0 (immortal: exempt in the oracle) or the oracle's number of holders -/
+theorem oracle_string_clauses (ops : List Op) (s : St) (h : run St.init ops = .ok s)
+    (c : Nat) (cell : Cell) (hc : s.heap[c]? = some cell) (hk : cell.kind.isStr = true) :
+    (cell.live = false → holders s c = 0) ∧ (cell.live = true → cell.ref = 0 ∨ cell.ref = holders s c) := by
+  rw [holders_eq_H s (run_DE ops St.init s h DE_init) c]
+  have := string_cells_never_freed_while_held ops s h c cell hc hk
+  exact ⟨this.1, fun hl => (this.2 hl).elim Or.inl (fun x => Or.inr x.1)⟩
+
+
+/-- **oracle_accepts_model_state** (clause-level top theorem for the per-value part of the oracle).  The oracle's
+    declarative step `collect1` — "every existing value nobody refers to disappears; every counter is the number of
+    holders" — changes NOTHING on a state the model reaches (holders fitting the counters, no string saturated to the
+    immortal counter 0): after every history the counting machine is already in the state the declarative definition of
+    exact reference counting demands, and the iteration `collect` stops at once. -/
+theorem oracle_accepts_model_state (ops : List Op) (s : St) (h : run St.init ops = .ok s) (fit : FitsRun St.init ops)
+    (small : ∀ c, H s c < 2 ^ W)
+    (nosat : ∀ (c : Nat) (cell : Cell), s.heap[c]? = some cell → cell.live = true → cell.kind.isStr = true → cell.ref ≠ 0) :
+    collect1 s = (s, false) ∧ ∀ n, collect (n + 1) s = s := by
+  have de := run_DE ops St.init s h DE_init
+  have c1 : collect1 s = (s, false) := by
+    apply collect1_fix s de
+    · intro c cell hc hl
+      rw [holders_eq_H s de c]
+      cases hk : cell.kind.isStr with
+      | false =>
+        have := (ref_eq_holders ops s h fit c cell hc hl hk).2 (small c)
+        exact ⟨this.1, this.2⟩
+      | true =>
+        rcases (string_cells_never_freed_while_held ops s h c cell hc hk).2 hl with h0 | ⟨h1, h2, _⟩
+        · exact absurd h0 (nosat c cell hc hl hk)
+        · exact ⟨h1, h2⟩
+    · intro c cell hc hl
+      exact oracle_freed_clause ops s h fit c cell hc hl
+  refine ⟨c1, fun n => ?_⟩
+  simp only [collect, c1]
+  rfl
+
+/-- non-vacuity: a model state with shared values, a pending call_out and a destructed object is a fixpoint of the oracle -/
+example : ∃ s, run St.init [.newarr 0 2, .assign 1 0, .newmap 2, .mset 2 0 0, .newobj 0, .call 0 0 1 0 2, .dest 0, .free 1] = .ok s ∧
+    (collect1 s).2 = false ∧ (collect1 s).1.heap.map (·.ref) = s.heap.map (·.ref) ∧ (∀ c, c < s.heap.length → H s c < 2 ^ W) := by
+  refine ⟨_, rfl, ?_, ?_, ?_⟩ <;> decide
+
+
+/-- non-vacuity: the oracle's count on a model state with shared values -/
+example : ∃ s, run St.init [.newarr 0 2, .assign 1 0, .newmap 2, .mset 2 0 0, .free 1] = .ok s ∧ holders s 2 = 3 ∧ H s 2 = 3 := by
+  refine ⟨_, rfl, ?_, ?_⟩ <;> decide
+
 /-- non-vacuity: a history that shares one array between a variable, a container, a mapping, an object variable,
     a function pointer, a pending call_out and a sentence, and then releases everything -/
 def balancedExample : List Op :=
   [.newarr 0 2, .newmap 1, .newobj 0, .mset 1 0 0, .setvar 0 1 0, .newfun 2 0 0, .call 0 0 1 0 1, .sent 0 0 0 1,
-   .free 0, .free 1, .free 2, .sweep, .dest 0, .cleanup, .drop 0]
+   .free 0, .free 1, .free 2, .sweep, .dest 0, .cleanup, .drop 0, .unload 0, .unload 1]
 
 example : ∃ s, run St.init balancedExample = .ok s ∧ (∀ c, c < s.heap.length → H s c = 0) ∧
     s.stats.numArrays = 0 ∧ s.stats.objects = 0 := by
   refine ⟨_, rfl, ?_, ?_, ?_⟩ <;> decide
+
+/-! ### one sweep of call_out() runs every pending call exactly once -/
+
+theorem insCall_perm (x : Nat × Nat) (l : List (Nat × Nat)) : (insCall x l).Perm (x :: l) := by
+  induction l with
+  | nil => exact List.Perm.refl _
+  | cons y ys ih =>
+    unfold insCall
+    split
+    · exact List.Perm.refl _
+    · exact ((List.Perm.cons y ih).trans (List.Perm.swap x y ys))
+
+theorem foldl_insCall_perm (l acc : List (Nat × Nat)) :
+    (l.foldl (fun acc x => insCall x acc) acc).Perm (l ++ acc) := by
+  induction l generalizing acc with
+  | nil => exact List.Perm.refl _
+  | cons x xs ih =>
+    simp only [List.foldl_cons]
+    refine (ih (insCall x acc)).trans ?_
+    refine (List.Perm.append_left xs (insCall_perm x acc)).trans ?_
+    simp only [List.cons_append]
+    exact List.perm_middle
+
+/-- the pending calls: slots whose root holds a call record, with the record's cell index -/
+def pendingCalls (s : St) : List (Nat × Nat) :=
+  (List.range nCalls).filterMap (fun k => match s.roots[rCall k]? with
+    | some (.ptr c) => some (c, k)
+    | _ => none)
+
+/-- **sweep_runs_every_pending_call_once.**  One sweep of call_out() (model: `sweepOrder`) visits exactly the slots that
+    hold a pending call, each once: no call is lost and none is run twice, whatever the order. -/
+theorem sweep_runs_every_pending_call_once (s : St) :
+    (sweepOrder s).Perm ((pendingCalls s).map (·.2)) ∧ (sweepOrder s).Nodup := by
+  have hp : (sweepOrder s).Perm ((pendingCalls s).map (·.2)) := by
+    unfold sweepOrder pendingCalls
+    have := foldl_insCall_perm ((List.range nCalls).filterMap (fun k => match s.roots[rCall k]? with
+      | some (.ptr c) => some (c, k)
+      | _ => none)) []
+    simp only [List.append_nil] at this
+    exact this.map _
+  refine ⟨hp, ?_⟩
+  rw [hp.nodup_iff]
+  unfold pendingCalls
+  have hsub : ((List.range nCalls).filterMap (fun k => match s.roots[rCall k]? with
+      | some (.ptr c) => some (c, k)
+      | _ => none)).map (·.2) = (List.range nCalls).filter (fun k => match s.roots[rCall k]? with
+      | some (.ptr _) => true
+      | _ => false) := by
+    induction (List.range nCalls) with
+    | nil => rfl
+    | cons k ks ih =>
+      cases hr : s.roots[rCall k]? with
+      | none => simp [hr, ih]
+      | some v =>
+        cases v with
+        | num n => simp [hr, ih]
+        | ptr c => simp [hr, ih]
+  rw [hsub]
+  exact List.Nodup.sublist List.filter_sublist List.nodup_range
+
 
 end NV.C06
